@@ -157,7 +157,12 @@ Definition vrun_blamed (sel : repair -> bool) (r : vrun) : bool :=
 
 (* false iff the monitor is false and no combination of the known defects explains it *)
 Definition vrun_unexplained (r : vrun) : bool :=
-  if vrun_mon r then true else match blame (norm_case (vr_case r)) with Some _ => true | None => false end.
+  if vrun_mon r then true
+  else match blame (norm_case (vr_case r)) with
+       | Some p => negb (Nat.eqb (rp_size p) 0)   (* "nothing to repair" explains nothing: the model itself prints the
+                                                    documented values, the implementation does not *)
+       | None => false
+       end.
 
 (* ---------- C10: environment ---------- *)
 
